@@ -1277,13 +1277,15 @@ func earlyExit(rs *ast.RangeStmt) ast.Node {
 
 // injectiveReads: comparator read sets that make the order total on the
 // collected elements, by element type.
-var injectiveReads = map[string][]string{
-	"object.HashPair": {"Inspect", "Type"}, // printed form plus type identifies a hashable key
-	// a key of a host map, ordered by its printed form (fmt's %v) and its
-	// type: keys that agree on both are converted to the same object, so
+var injectiveReads = map[string][][]string{
+	"object.HashPair": {{"Inspect", "Type"}}, // printed form plus type identifies a hashable key
+	// a key of a host map, ordered by its value and its type — the value as
+	// fmt's %v prints it, or taken out by its kind with the accessor of every
+	// kind that becomes a key of ours (string, boolean, the integers, the
+	// floats): keys that agree on both are converted to the same object, so
 	// which of them comes first is of no consequence (NaN keys and keys that
 	// print an address aside)
-	"reflect.Value": {"Sprintf", "Type"},
+	"reflect.Value": {{"Sprintf", "Type"}, {"Kind", "String", "Bool", "Int", "Uint", "Float", "Type"}},
 	// (the printed form of a syntax node does NOT identify it: "a<newline>" and
 	// "a\\n" print alike — an entry that used to be here for ast.Expression was
 	// wrong, see F30)
@@ -1824,14 +1826,24 @@ func comparatorTotal(p *Program, info *types.Info, sliceArg ast.Expr, fl *ast.Fu
 		rl = append(rl, k)
 	}
 	sort.Strings(rl)
-	need, ok := injectiveReads[typeStr(elem)]
+	alts, ok := injectiveReads[typeStr(elem)]
 	if !ok {
 		return "sorted-not-total", fmt.Sprintf("elements of type %s are ordered by %v only, which does not identify an element (two different entries can compare equal)", typeStr(elem), rl)
 	}
-	for _, n := range need {
-		if !reads[n] {
-			return "sorted-not-total", fmt.Sprintf("elements of type %s are ordered by %v; a total order needs %v", typeStr(elem), rl, need)
+	total := false
+	for _, need := range alts {
+		all := true
+		for _, n := range need {
+			if !reads[n] {
+				all = false
+			}
 		}
+		if all {
+			total = true
+		}
+	}
+	if !total {
+		return "sorted-not-total", fmt.Sprintf("elements of type %s are ordered by %v; a total order needs %v", typeStr(elem), rl, alts)
 	}
 	// the entries of a hash are in the order of their keys' printed forms (the
 	// documented order of iteration, keys() and the printed hash): the string
@@ -1949,6 +1961,7 @@ func ruleHashKey(p *Program, r *Reporter) {
 		}
 		n++
 		typeOK, valueOK := false, false
+		lossy, lossyPos := "", token.NoPos
 		for _, b := range fn.Blocks {
 			for _, ins := range b.Instrs {
 				st, ok := ins.(*ssa.Store)
@@ -1972,10 +1985,16 @@ func ruleHashKey(p *Program, r *Reporter) {
 					if _, isConst := st.Val.(*ssa.Const); !isConst {
 						valueOK = true
 					}
+					if why, ps := lossyHashStep(st.Val, map[ssa.Value]bool{}, 0); why != "" && lossy == "" {
+						lossy, lossyPos = why, ps
+					}
 				}
 			}
 		}
 		key := "hash key of object." + tn
+		if typeOK && valueOK {
+			r.Check(lossy == "", key+"/no two values share a key by construction", p.Pos(posOr(lossyPos, fn.Pos())), "the value component is computed from the whole value (a same-width conversion, or a hash of its text)", lossy+": distinct values of this type get the same key, so as hash keys they name one entry — {1.5:\"a\", 1.25:\"b\"}[1.25] is \"a\" — and the literal that lists both silently keeps one")
+		}
 		switch {
 		case !typeOK:
 			r.Fail(key, p.Pos(fn.Pos()), "HashKey() does not record the object's own type: keys of different types that hash/print alike (1 and \"1\", 1 and 1.0) collide and overwrite each other")
@@ -2061,6 +2080,119 @@ func ruleHashKey(p *Program, r *Reporter) {
 			}
 		}
 	}
+}
+
+func posOr(a, b token.Pos) token.Pos {
+	if a.IsValid() {
+		return a
+	}
+	return b
+}
+
+// lossyHashStep: a step in the computation of v that maps distinct inputs to
+// one output by construction — a float cut down to an integer, an integer cut
+// down to fewer bits, a remainder, a shift to the right, a mask, a length, a
+// part of a string.  (A hash function is not such a step: it may collide, but
+// not by construction.)
+func lossyHashStep(v ssa.Value, seen map[ssa.Value]bool, depth int) (string, token.Pos) {
+	if v == nil || seen[v] || depth > 12 {
+		return "", token.NoPos
+	}
+	seen[v] = true
+	isFloat := func(t types.Type) bool {
+		b, ok := t.Underlying().(*types.Basic)
+		return ok && b.Info()&types.IsFloat != 0
+	}
+	intBits := func(t types.Type) int {
+		b, ok := t.Underlying().(*types.Basic)
+		if !ok || b.Info()&types.IsInteger == 0 {
+			return 0
+		}
+		switch b.Kind() {
+		case types.Int8, types.Uint8:
+			return 8
+		case types.Int16, types.Uint16:
+			return 16
+		case types.Int32, types.Uint32:
+			return 32
+		case types.Int, types.Uint, types.Uintptr:
+			return 63 // at least 32, at most 64: narrower than a 64-bit integer on some platforms
+		}
+		return 64
+	}
+	switch x := v.(type) {
+	case *ssa.Convert:
+		from, to := x.X.Type(), x.Type()
+		switch {
+		case isFloat(from) && intBits(to) > 0:
+			return "the value is a floating-point number cut down to an integer (" + from.String() + " → " + to.String() + "): every number with the same integer part gives the same result", x.Pos()
+		case intBits(from) > 0 && intBits(to) > 0 && intBits(to) < intBits(from):
+			return "the value is an integer cut down to fewer bits (" + from.String() + " → " + to.String() + ")", x.Pos()
+		case isFloat(from) && isFloat(to) && from.Underlying().(*types.Basic).Kind() == types.Float64 && to.Underlying().(*types.Basic).Kind() == types.Float32:
+			return "the value is rounded to a float32", x.Pos()
+		}
+		return lossyHashStep(x.X, seen, depth+1)
+	case *ssa.ChangeType:
+		return lossyHashStep(x.X, seen, depth+1)
+	case *ssa.BinOp:
+		switch x.Op {
+		case token.REM, token.QUO, token.SHR, token.AND, token.AND_NOT:
+			return "the value goes through `" + x.Op.String() + "`, which maps many numbers to one", x.Pos()
+		}
+		if why, ps := lossyHashStep(x.X, seen, depth+1); why != "" {
+			return why, ps
+		}
+		return lossyHashStep(x.Y, seen, depth+1)
+	case *ssa.Slice:
+		if b, ok := x.X.Type().Underlying().(*types.Basic); ok && b.Info()&types.IsString != 0 && (x.Low != nil || x.High != nil) {
+			return "only a part of the text is used", x.Pos()
+		}
+		return lossyHashStep(x.X, seen, depth+1)
+	case *ssa.Phi:
+		for _, e := range x.Edges {
+			if why, ps := lossyHashStep(e, seen, depth+1); why != "" {
+				return why, ps
+			}
+		}
+	case *ssa.UnOp:
+		if al, ok := x.X.(*ssa.Alloc); ok && x.Op == token.MUL && al.Referrers() != nil {
+			for _, ref := range *al.Referrers() {
+				if st, ok := ref.(*ssa.Store); ok && st.Addr == ssa.Value(al) {
+					if why, ps := lossyHashStep(st.Val, seen, depth+1); why != "" {
+						return why, ps
+					}
+				}
+			}
+		}
+	case *ssa.Call:
+		if bi, ok := x.Call.Value.(*ssa.Builtin); ok && bi.Name() == "len" {
+			return "only the length of the value is used", x.Pos()
+		}
+		// what was written into a hasher whose sum this is
+		if x.Call.IsInvoke() && len(x.Call.Args) == 0 {
+			recv := x.Call.Value
+			if recv.Referrers() != nil {
+				for _, ref := range *recv.Referrers() {
+					c, ok := ref.(*ssa.Call)
+					if !ok || !c.Call.IsInvoke() || c.Call.Value != recv || c == x {
+						continue
+					}
+					for _, a := range c.Call.Args {
+						if why, ps := lossyHashStep(a, seen, depth+1); why != "" {
+							return why, ps
+						}
+					}
+				}
+			}
+			return "", token.NoPos
+		}
+		for _, a := range x.Call.Args {
+			if why, ps := lossyHashStep(a, seen, depth+1); why != "" {
+				return why, ps
+			}
+		}
+	}
+	return "", token.NoPos
 }
 
 // listReadsIdentityOnly: every value of the type that the module reads out of
